@@ -245,6 +245,31 @@ def names_lifecycle(s):
     d(op='traits_list', v=39, fkind='startswith', names=[], prefix='CUSTOM_', assoc='')
 
 
+def reshape_tightens_units(s):
+    """C01: a reshape that keeps classes and capacity and only tightens a unit
+    constraint must judge its own allocations by the new constraint."""
+    s.mk('p1')
+    s.mk('p2', 'p1')
+    s.invs('p1', VCPU=8, DISK_GB=100)
+    s.invs('p2', VCPU=8)
+    s.put('c1', {'p1': {'VCPU': 4, 'DISK_GB': 10}})
+    for field, val, amt in (('max_unit', 2, 4), ('min_unit', 3, 2), ('step_size', 3, 4)):
+        inv = dict(INV(8))
+        inv[field] = val
+        if inv['min_unit'] > inv['max_unit']:
+            inv['max_unit'] = inv['min_unit']
+        # refused: the amount breaks the new constraint
+        s.reshape({'p1': {'VCPU': inv, 'DISK_GB': 100}}, [s.entry('c1', {'p1': {'VCPU': amt, 'DISK_GB': 10}})])
+        # the same for a second consumer and on the child
+        s.reshape({'p2': {'VCPU': inv}}, [s.entry('c2', {'p2': {'VCPU': amt}}, cgen=-1)])
+        s.reads()
+    # accepted: amounts that fit the new constraint
+    inv = dict(INV(8))
+    inv['max_unit'] = 2
+    s.reshape({'p1': {'VCPU': inv, 'DISK_GB': 100}}, [s.entry('c1', {'p1': {'VCPU': 2, 'DISK_GB': 10}})])
+    s.reads()
+
+
 def sync_histories(s):
     """C19: start-up synchronisation from an empty, a partially and a fully
     synchronised database, repeated, interleaved with API requests."""
@@ -336,6 +361,7 @@ SCENARIOS = {
     'subtree_moves': subtree_moves,
     'consumer_lifecycle': consumer_lifecycle,
     'names_lifecycle': names_lifecycle,
+    'reshape_tightens_units': reshape_tightens_units,
 }
 
 
